@@ -198,7 +198,7 @@ def rule_options(chk, prog):
   mm = env.get('matmul')
   ok = (mm is not None and mm.k == 'partial' and mm.a[0].k == 'phi' and mm.a[0].a[0] == Term('sym', 'reverse_arg_order')
         and mm.a[0].a[1] == Term('func', f'dinosaur.{JU}._reversed_arg_order_einsum') and mm.a[0].a[2] == Term('ext', 'jax.numpy.einsum')
-        and mm.a[1] == (Term('sym', 'einsum_spec'),) and dict(mm.a[2]) == {'precision': Term('sym', 'precision')})
+        and mm.a[1] == (Term('sym', 'einsum_spec'),) and util.call_kwargs(mm) == {'precision': Term('sym', 'precision')})
   chk.check(ok, rule, f'{JU}._allgather_matmul_twoway: both flavours are partial(·, einsum_spec, precision=precision) of einsum / _reversed_arg_order_einsum', sym.show(mm)[:200] if mm is not None else 'missing', (g.file, g.lineno))
   chk.at_least(rule, 24)
 
@@ -244,7 +244,7 @@ def rule_layout_siblings(chk, prog):
     want = {'RealSphericalHarmonics': 'real_basis_derivative', 'FastSphericalHarmonics': '_fourier_derivative_for_real_basis_with_zero_imag'}[cname]
     okd = v.k == 'call' and util.callee_name(v) == want
     if cname == 'RealSphericalHarmonics' and okd:
-      okd = dict(v.a[2]).get('axis') == sym.const(-2) or (len(v.a[1]) > 1 and v.a[1][1] == sym.const(-2))
+      okd = util.call_kwargs(v).get('axis') == sym.const(-2) or (len(v.a[1]) > 1 and v.a[1][1] == sym.const(-2))
     chk.check(okd, 'C09.3-layouts', f'{SH}.{cname}.longitudinal_derivative uses the derivative that matches its own basis builder ({want}) along axis −2', sym.show(v), (f.file, f.lineno))
   c2 = prog.cls(f'{SH}.FastSphericalHarmonics')
   f = c2.find_method('basis')
